@@ -72,9 +72,11 @@ CLAIMED = {
              "len(inodes)+1, descriptors from a counter) refines the reference model Ref on every valid history "
              "(simulation preserved by each of the ten operations, lifted by induction over histories); Ref-level "
              "theorems give exclusive Create, fresh descriptors, shared hard links, Delete keeping open files, exact "
-             "ReadAt ranges and exact List. DirFs (system calls over a modelled OS tree) is an executable model "
-             "whose refinement proof is not finished: DirFs = Ref is currently established by correspondence only. "
-             "Tie: regenerated declarations and system calls with evaluated flags of machine/filesys (rfl against "
+             "ReadAt ranges and exact List. DirFs (system calls over a modelled OS tree, AtomicCreate as its system-call "
+             "machine) refines Ref on every valid history as well (simulation with equal inode numbers and contents, the "
+             "append-offset invariant, no leftover temporary files), hence MemFs and DirFs agree; the one side condition - "
+             "fewer than 2^32 descriptors handed out, because the model names AtomicCreate's internal descriptor 2^32 - is "
+             "shown to be necessary for the model. Tie: regenerated declarations and system calls with evaluated flags of machine/filesys (rfl against "
              "committed expectations) and differential runs of real MemFs/DirFs (direct and through the wrappers) "
              "against the compiled Ref model with shrinking.",
         ref="DESIGN.md §6 C12",
@@ -129,10 +131,11 @@ CLAIMED = {
              "tables are regenerated from goose.go: Require lines contain exactly the non-builtin imports, each once, "
              "sorted, and depend only on the set of imports (not order or repetition across files); the path mapping "
              "removes every '.' and '-' and changes nothing else; header/footer follow the FFI; the FFI result is the "
-             "generic one, a single FFI, or a refusal when two are seen. The import-graph walk itself is an executable "
-             "model whose graph-theoretic characterisation is not yet proved: its agreement with goose on direct / "
-             "transitive / hidden-behind-an-FFI / two-FFI shapes is established by kernel-checked evaluations of the shapes "
-             "and by correspondence. Tie: regenerated tables and function texts (rfl) + the REAL goose binary on generated "
+             "generic one, a single FFI, or a refusal when two are seen. The import-graph walk is characterised for every "
+             "graph (cycles, duplicate and missing entries included) with the model's own fuel bound: the FFIs found are exactly "
+             "those of packages reachable through imports without passing through an FFI package; the result is none / that "
+             "FFI / refused iff zero / exactly one / at least two different FFIs are reachable; import lists of FFI packages and "
+             "of unreachable packages, and the order of imports and of graph entries, do not matter. Tie: regenerated tables and function texts (rfl) + the REAL goose binary on generated "
              "modules, judged against an independent reading of the property.",
         ref="DESIGN.md §6 C08",
         note="Trusted: packages.Visit visits each package once depth-first; github.com/mit-pdos/gokv is replaced by a local "
@@ -189,13 +192,15 @@ CLAIMED.update({
              "that the model of stmts/stmtInBlock/ifStmt/endsWithReturn accepts, the single expression it builds computes exactly Go's control "
              "flow, for every interpretation of atoms, all states and all fuels; accepted lists never get stuck; (2) for widths 64/32/8 and all "
              "operands every row of the regenerated operator tables maps a Go operator to the GooseLang operator with Go's wrap-around meaning "
-             "(+,-,*,/,%,&,|,^,<<,>>, comparisons) and to_uN is Go's conversion. Tied to the code by regenerated canonical text and tables (rfl), by "
-             "a structural correspondence (the model's output equals what the real goose emits on random control-flow skeletons, rejections and "
-             "messages included) and by an end-to-end differential: generated packages run natively and through the real goose plus the Lean "
+             "(+,-,*,/,%,&,|,^,<<,>>, comparisons) and to_uN is Go's conversion; (3) scoping soundness - for every program over :=, var, assignment, nested "
+             "blocks and conditionals with any shadowing pattern that the model of the let/ref translation accepts, the emitted term evaluates to Go's "
+             "value and is never stuck; the pre-repair translation (blocks without parentheses) provably is not sound. Tied to the code by regenerated canonical text and tables (rfl), by "
+             "structural correspondences (the models' outputs equal the trees the real goose emits on random control-flow skeletons and random "
+             "scoping programs, rejections and messages included; values agree with native Go) and by an end-to-end differential: generated packages run natively and through the real goose plus the Lean "
              "reference interpreter (calibrated on every run against the repository's own semantics suite).",
         ref="DESIGN.md §6 C01",
-        note="Proved: the control-flow and arithmetic core. Modelled and sampled, not proved: scoping/let-binding, heap (structs, slices, maps, "
-             "pointers), closures, strings, encoders - covered by the differential only (partial). Trusted: GL/Sem.lean as the meaning of the emitted "
+        note="Proved: control flow, arithmetic, scoping (each over its own model of the corresponding translator functions; their composition is "
+             "sampled). Modelled and sampled, not proved: heap (structs, slices, maps, pointers), closures, strings, encoders - covered by the differential only (partial). Trusted: GL/Sem.lean as the meaning of the emitted "
              "text (reconstruction of Perennial's GooseLang, K3-calibrated), GL/Lex+Parse, the Go toolchain as the meaning of Go. Known findings "
              "(known_findings.jsonl): loop-variable scope, named-integer conversions, narrow ++/--, untyped constant operands, evaluation order, "
              "per-iteration loop variables, empty make is nil.",
